@@ -25,7 +25,7 @@ NT_FLOOR = 0.2
 
 @st.composite
 def plan_st(draw, tier):
-    cfg = draw(gen.config_st(arm_kinds=("int", "str", "float", "mix"), max_arms=4, with_binarizer=True, scale_ok=True,
+    cfg = draw(gen.config_st(metrics=gen.SAFE_METRICS, arm_kinds=("int", "str", "float", "mix"), max_arms=4, with_binarizer=True, scale_ok=True,
                              defaults_ok=True))
     h = gen.History(draw, cfg, max_rows=8)
     for _ in range(draw(st.sampled_from([0, 0, 1]))):
